@@ -316,3 +316,125 @@ def _mk_queue_reply(nqueues, nprops):
 
 for _q, _p in ((0, 0), (1, 0), (1, 2), (2, 1)):
   _mk_queue_reply(_q, _p)
+
+
+# ---------------------------------------------------------------- vendor action, description statistics
+
+from contracts.c01_codec import make_unit, _rt_action2   # noqa
+make_unit("ofp_action_vendor_generic", "action", 0xffff)
+
+
+def _mk_desc(lengths, idx):
+  def u(b):
+    o = b.new(of.ofp_desc_stats)
+    vals = {}
+    names = ["mfr_desc", "hw_desc", "sw_desc", "serial_num", "dp_desc"]
+    from contracts.c01_codec import _no_nul, _encode
+    for nm, ln in zip(names, lengths):
+      s = _no_nul(b, b.str(nm, ln), nm)
+      b.set(o, nm, s)
+      vals[nm] = _encode(b, s)
+    return Case(_rt_stats, [o], ensures={
+      "layout": lambda res: res[0] == layout(TABLES["ofp_desc_stats"], vals, None, 1056),
+      "length": lambda res: res[1] == 1056 and len(res[0]) == 1056,
+      "consumed": lambda res: res[2] == 1056,
+      "round_trip": lambda res: res[3] == True,
+      "re_encode": lambda res: res[4] == res[0],
+    })
+  unit(P, target=MOD + "ofp_desc_stats.pack/unpack/__len__/__eq__", name="ofp_desc_stats_%d" % idx)(u)
+  u.bound = "text lengths fixed per unit: " + str(lengths)
+
+
+for _i, _l in enumerate([(0, 0, 0, 0, 0), (7, 13, 1, 32, 40), (40, 1, 2, 3, 4)]):
+  _mk_desc(_l, _i)
+
+
+# ---------------------------------------------------------------- statistics request / reply envelopes
+
+STATS_TYPE = {"desc": 0, "flow": 1, "aggregate": 2, "table": 3, "port": 4, "queue": 5, "vendor": 0xffff}
+
+
+def _mk_stats_request(kind, body_cls, body_len):
+  def u(b):
+    o = b.new(of.ofp_stats_request)
+    vals = {}
+    set_scalars(b, o, [f for f in TABLES["ofp_stats_request"] if f[0] == "u" and f[2] != "type"], "", vals)
+    vals["type"] = STATS_TYPE[kind]
+    b.set(o, "type", STATS_TYPE[kind])
+    if body_cls is None:
+      body_bytes = b""
+      b.set(o, "_body", b.new(getattr(of, "ofp_%s_stats_request" % kind)))
+    elif body_cls in ("ofp_flow_stats_request", "ofp_aggregate_stats_request"):
+      bo = b.new(getattr(of, body_cls))
+      bv = {}
+      set_scalars(b, bo, TABLES[body_cls], "b.", bv)
+      m, mi = build_match(b)
+      b.assume(prereq_ok(b, mi))
+      b.set(bo, "match", m)
+      b.set(o, "_body", bo)
+      body_bytes = None
+    else:
+      spec = build_obj(b, body_cls, "b.")
+      b.set(o, "_body", spec[0])
+      body_bytes = spec
+    total = 12 + body_len
+    if body_bytes is None:
+      t = no_sub(TABLES[body_cls], "match")
+      lay = lambda res: res[0] == layout(TABLES["ofp_stats_request"],
+                                         dict(vals, body=layout(t, dict(bv, match=res[0][12:52]), None, body_len)), 16, total) \
+        and spec_match_bytes_ok(res[0][12:52], mi, mi.W)
+    elif body_bytes == b"":
+      lay = lambda res: res[0] == layout(TABLES["ofp_stats_request"], dict(vals, body=b""), 16, total)
+    else:
+      lay = lambda res: res[0] == layout(TABLES["ofp_stats_request"], dict(vals, body=enc(body_bytes)), 16, total)
+    return Case(_rt_message, [o], ensures={
+      "layout": lay,
+      "length": lambda res: res[1] == total and len(res[0]) == total,
+      "consumed": lambda res: res[2] == total,
+      "round_trip": lambda res: res[3] == True,
+      "re_encode": lambda res: res[4] == res[0],
+    })
+  unit(P, target=MOD + "ofp_stats_request.pack/unpack/__len__/__eq__", name="ofp_stats_request_" + kind)(u)
+
+
+_mk_stats_request("desc", None, 0)
+_mk_stats_request("table", None, 0)
+_mk_stats_request("flow", "ofp_flow_stats_request", 44)
+_mk_stats_request("aggregate", "ofp_aggregate_stats_request", 44)
+_mk_stats_request("port", "ofp_port_stats_request", 8)
+_mk_stats_request("queue", "ofp_queue_stats_request", 8)
+
+
+def _mk_stats_reply(kind, body_cls, count):
+  """reply whose body is `count` entries of body_cls (count None: a single non-list body)"""
+  def u(b):
+    o = b.new(of.ofp_stats_reply)
+    vals = {}
+    set_scalars(b, o, [f for f in TABLES["ofp_stats_reply"] if f[0] == "u" and f[2] != "type"], "", vals)
+    vals["type"] = STATS_TYPE[kind]
+    b.set(o, "type", STATS_TYPE[kind])
+    n = 1 if count is None else count
+    specs = [build_obj(b, body_cls, "e%d." % i) for i in range(n)]
+    if count is None:
+      b.set(o, "body", specs[0][0])
+    else:
+      b.set(o, "body", b.list([s[0] for s in specs]))
+    total = 12 + sum([s[2] for s in specs])
+    return Case(_rt_message, [o], ensures={
+      "layout": lambda res: res[0] == layout(TABLES["ofp_stats_reply"],
+                                             dict(vals, body=b"".join([enc(s) for s in specs])), 17, total),
+      "length": lambda res: res[1] == total and len(res[0]) == total,
+      "consumed": lambda res: res[2] == total,
+      "round_trip": lambda res: res[3] == True,
+      "re_encode": lambda res: res[4] == res[0],
+    })
+  nm = "ofp_stats_reply_%s_%s" % (kind, "single" if count is None else count)
+  unit(P, target=MOD + "ofp_stats_reply.pack/unpack/__len__/__eq__", name=nm)(u)
+  if count is not None:
+    u.bound = LISTS
+
+
+_mk_stats_reply("aggregate", "ofp_aggregate_stats", None)
+for _k, _c in (("port", "ofp_port_stats"), ("queue", "ofp_queue_stats"), ("table", "ofp_table_stats")):
+  for _n in (0, 1, 2):
+    _mk_stats_reply(_k, _c, _n)
